@@ -755,10 +755,34 @@ class CombinedExpressionSerialization(DeconstructedSerialization):
             The resulting Python code.
         """
         return '%s %s %s' % (
-            serialize_to_python(value.lhs),
+            cls._serialize_operand(value.lhs),
             value.connector,
-            serialize_to_python(value.rhs),
+            cls._serialize_operand(value.rhs),
         )
+
+    @classmethod
+    def _serialize_operand(cls, operand):
+        """Serialize one side of a CombinedExpression to Python code.
+
+        A side that is itself a combined expression is parenthesized, so
+        that the grouping of the original expression is kept no matter how
+        the operators involved bind.
+
+        Args:
+            operand (object):
+                The left-hand or right-hand side of the expression.
+
+        Returns:
+            unicode:
+            The resulting Python code.
+        """
+        result = serialize_to_python(operand)
+
+        if (CombinedExpression is not None and
+            isinstance(operand, CombinedExpression)):
+            result = '(%s)' % result
+
+        return result
 
     @classmethod
     def _deconstruct_object(cls, obj):
